@@ -9,6 +9,7 @@ pub mod crls;
 pub mod csrs;
 pub mod imports;
 pub mod keymon;
+pub mod miri_import;
 pub mod table;
 pub mod c13;
 pub mod c18;
@@ -68,6 +69,10 @@ pub fn dispatch(ctx: &Ctx, extra: &[String]) -> (String, String) {
 				"case = one invocation of the real rustls-cert-gen binary in a fresh directory with a generated option set (two thirds valid, one third invalid in one of the three classes, plus directed base-name layouts); distinct by hash of the argument vector".into(),
 				String::new(),
 			)
+		},
+		"MIRI-IMPORT" => {
+			miri_import::run(ctx);
+			("case = one generated certificate (remote signer) imported, compared, re-issued; plus structure-aware mutants of those offered to the import parser".into(), String::new())
 		},
 		"C15" | "C16" => {
 			table_dispatch(ctx, &arg);
@@ -173,7 +178,11 @@ fn artefacts(ctx: &Ctx) -> (String, String) {
 		}
 	};
 	if matches!(prop, Prop::C01 | Prop::C02 | Prop::C04 | Prop::C05) && wants("cert") {
-		let issuers = certs::make_issuers(&pool, ctx.seed);
+		let issuers = certs::make_issuers(ctx, &pool, ctx.seed);
+		if issuers.is_empty() {
+			ctx.inconclusive("no issuer certificate could be generated");
+			return (String::new(), String::new());
+		}
 		let w = certs::Workload { pool: &pool, issuers: &issuers };
 		let n = match prop {
 			Prop::C02 => ctx.scale(5_000, 300_000),
